@@ -35,14 +35,33 @@ theorem asFound_batched_differs :
     incrementAccum asFound w13 2 ≠ incrementAccum asFound (incrementAccum asFound w13 1) 1 := by
   decide
 
-/-- C16.1'' KNOWN FINDING (both variants): the cached proposer is not persisted, and `Proposer()`
-    recomputes it from accums that have ALREADY been decremented — a restarted replica names a
-    different round-0 proposer than one that kept running. Witness: four equal validators. -/
+/-- C16.1c the persistence AS FOUND (and still the bare wire round trip of a set): the cached
+    proposer is not persisted, and `Proposer()` recomputes it from accums that have ALREADY been
+    decremented — a restarted replica names a different round-0 proposer than one that kept
+    running. Witness: four equal validators. -/
 def w4 : ValSet := ⟨[⟨[1], 1, 0⟩, ⟨[2], 1, 0⟩, ⟨[3], 1, 0⟩, ⟨[4], 1, 0⟩], none, 0⟩
 
 theorem reload_changes_proposer (cfg : Cfg) :
     (proposer (incrementAccum cfg w4 1)).2 = some [1] ∧
     (proposer (reload (incrementAccum cfg w4 1))).2 = some [2] := by
+  cases cfg with
+  | mk it => cases it <;> decide
+
+/-- C16.1d the REPAIRED state persistence (the proposer's address is stored behind the state's
+    wire bytes and restored on load): a restarted replica names the proposer the running one names,
+    for EVERY set, and every later increment/selection is the same too (only the total-power cache,
+    which is recomputed on demand, differs). -/
+theorem state_reload_keeps_proposer (vs : ValSet) :
+    (proposer (reloadState true vs)).2 = (proposer vs).2 ∧
+    (reloadState true vs).vals = vs.vals ∧ (reloadState true vs).proposer = vs.proposer := by
+  refine ⟨?_, rfl, rfl⟩
+  unfold proposer reloadState
+  simp only [if_true]
+  split <;> (try rfl)
+  split <;> rfl
+
+theorem asFound_state_reload_changes_proposer (cfg : Cfg) :
+    (proposer (reloadState false (incrementAccum cfg w4 1))).2 ≠ (proposer (incrementAccum cfg w4 1)).2 := by
   cases cfg with
   | mk it => cases it <;> decide
 
